@@ -6,13 +6,17 @@
 //   outcome o = okind; code; ri_kind; ri_nanos; wrap      (as in errors_test.go; okind 0 = accept)
 //   kind 7  raw HTTP request:  [auth; enc; post; ct; body; o...]            -> [called; status; ra_present; ra_secs; body_code]
 //           auth 0 none configured, 1 accepted, 2 refused; enc 0 good, 1 bad body (eager decoder), 2 bad body
-//           (lazy decoder), 3 unsupported Content-Encoding; ct 0 protobuf, 1 json, 2 anything else;
+//           (lazy decoder), 3 unsupported Content-Encoding, 4 the body read ends early (compressed stream without its trailer / fewer bytes than Content-Length) although the received prefix is intact; ct 0 protobuf, 1 json, 2 anything else;
 //           body -1 = does not unmarshal, n >= 0 = n items; body_code -1 = body is not an rpc.Status
 //   kind 8  hop through an exporter: [transport; auth; items; o...; signal; compression; sets_event_name_or_zero_threshold; compression level; body KiB] -> [called; verdict; delay; errcode; sink_n; sink_eq]
 //           transport 0 grpc, 1 http/proto, 2 http/json; verdict 0 success, 1 permanent, 2 retryable, 3 throttle
 //   kind 10 hop while the receiver shuts down: [transport; phase; items; o...; signal] -> [called; verdict; delay; errcode; sink_n; sink_eq]
 //           phase 1: the export is inside the next consumer when Receiver.Shutdown starts (the consumer answers afterwards);
 //           phase 2: the export is sent after Shutdown returned (errcode not compared: there is no status on the HTTP route)
+//   kind 11 hop with a slow consumer and HTTP server timeouts: [transport; read_timeout ms; write_timeout ms; consumer ms; items; o...; signal]
+//           -> [called; verdict; delay; errcode; sink_n; sink_eq]   (0 ms = timeout not configured)
+//   kind 12 a history: several sends in a row against one receiver whose sink is NOT reset in between:
+//           [t; a; items; o... (8 numbers per send)] -> [verdict; delay (2 numbers per send)] ++ [-7] ++ [indices of the sends found at the sink, in order]
 //   kind 9  raw gRPC frame:    [auth; body; o...]                            -> [called; code; ri_present; ri_nanos]   (code 0 = OK)
 //
 // Direct oracle (independent of the Coq model): the property's sentences — sink payload equals the sent
@@ -23,6 +27,7 @@
 package e2e
 
 import (
+	"bufio"
 	"bytes"
 	"compress/gzip"
 	"compress/zlib"
@@ -154,14 +159,13 @@ func (o vOutcome) expectedClass(transport int) int {
 	case 2:
 		return 1
 	}
-	if o.okind == 4 && (o.code == -1) {
+	// a foreign error whose GRPCStatus() is nil, or says OK (an error all the same: since /repo b16584117 it is
+	// reported like an error without a status), counts as "any other error"
+	if o.okind == 4 && (o.code == -1 || o.code == 0) {
 		if o.wrap == 1 {
 			return 1
 		}
 		return 2
-	}
-	if o.okind == 4 && o.code == 0 {
-		return 3 // an error: must not be reported as success (either failure class is acceptable)
 	}
 	c := o.code
 	switch c {
@@ -207,6 +211,7 @@ type vSink struct {
 	// when set, every consume call announces itself on entered and then waits for release (shutdown scenarios)
 	entered chan struct{}
 	release chan struct{}
+	hold    time.Duration // every consume call takes at least this long (slow-consumer scenarios)
 }
 
 func (s *vSink) set(err error) {
@@ -216,10 +221,20 @@ func (s *vSink) set(err error) {
 	s.mu.Unlock()
 }
 
+// setErr changes what the consumer answers without forgetting what it has received so far
+func (s *vSink) setErr(err error) {
+	s.mu.Lock()
+	s.err = err
+	s.mu.Unlock()
+}
+
 func (s *vSink) record(b []byte) error {
 	s.mu.Lock()
-	ent, rel := s.entered, s.release
+	ent, rel, hold := s.entered, s.release, s.hold
 	s.mu.Unlock()
+	if hold > 0 {
+		time.Sleep(hold)
+	}
 	if ent != nil {
 		ent <- struct{}{}
 		<-rel
@@ -274,7 +289,7 @@ func vFreeAddr() string {
 	return a
 }
 
-func vStartReceiver(withAuth bool, host component.Host) (*vRecv, error) {
+func vStartReceiver(withAuth bool, host component.Host, opts ...func(*otlpreceiver.Config)) (*vRecv, error) {
 	var lastErr error
 	for attempt := 0; attempt < 20; attempt++ {
 		r := &vRecv{sink: &vSink{}, grpcAddr: vFreeAddr(), httpAddr: vFreeAddr()}
@@ -285,6 +300,9 @@ func vStartReceiver(withAuth bool, host component.Host) (*vRecv, error) {
 		if withAuth {
 			cfg.GRPC.Auth = &configauth.Authentication{AuthenticatorID: vAuthID}
 			cfg.HTTP.ServerConfig.Auth = &confighttp.AuthConfig{Authentication: configauth.Authentication{AuthenticatorID: vAuthID}}
+		}
+		for _, opt := range opts {
+			opt(cfg)
 		}
 		set := receivertest.NewNopSettings(f.Type())
 		ctx := context.Background()
@@ -357,6 +375,9 @@ func vCompLevel(comp string) (string, int) {
 	return comp, 0
 }
 
+// vExpCfgHook, when set, edits the exporter configuration before the exporter is created (rare-configuration phase)
+var vExpCfgHook func(grpcCfg *otlpexporter.Config, httpCfg *otlphttpexporter.Config)
+
 func vNewExporter(transport int, comp string, authHdr int, signal int, r *vRecv, host component.Host) (*vExp, error) {
 	ctx := context.Background()
 	comp, level := vCompLevel(comp)
@@ -379,6 +400,9 @@ func vNewExporter(transport int, comp string, authHdr int, signal int, r *vRecv,
 		cfg.RetryConfig.Enabled = false
 		cfg.QueueConfig.Enabled = false
 		cfg.TimeoutConfig.Timeout = 60 * time.Second
+		if vExpCfgHook != nil {
+			vExpCfgHook(cfg, nil)
+		}
 		set := exportertest.NewNopSettings(f.Type())
 		switch signal {
 		case 0:
@@ -411,6 +435,9 @@ func vNewExporter(transport int, comp string, authHdr int, signal int, r *vRecv,
 			cfg.Encoding = otlphttpexporter.EncodingJSON
 		} else {
 			cfg.Encoding = otlphttpexporter.EncodingProto
+		}
+		if vExpCfgHook != nil {
+			vExpCfgHook(nil, cfg)
 		}
 		set := exportertest.NewNopSettings(f.Type())
 		switch signal {
@@ -801,6 +828,9 @@ type vEnv struct {
 	exps  map[string]*vExp
 	hc    *http.Client
 	conns map[string]*grpc.ClientConn
+	// rare-configuration phase: use this receiver / exporter instead of the shared ones
+	ovRecv *vRecv
+	ovExp  *vExp
 }
 
 func (v *vEnv) recv(auth int) *vRecv {
@@ -1095,8 +1125,14 @@ func (v *vEnv) hopP(r *vRand, transport, auth, items int, o vOutcome, signal int
 	_, level := vCompLevel(comp)
 	kib := len(p.pb) / 1024
 	rc := v.recv(auth)
+	if v.ovRecv != nil {
+		rc = v.ovRecv
+	}
 	rc.sink.set(o.err())
 	e := v.exporter(transport, comp, auth, signal)
+	if v.ovExp != nil {
+		e = v.ovExp
+	}
 	err := p.send(e)
 	verdict, delay := vClassify(err)
 	code := vErrCode(err)
@@ -1256,6 +1292,7 @@ func (v *vEnv) rawHTTP(r *vRand, auth, enc int, post bool, ct int, bodyItems int
 	}
 	hdrEnc := ""
 	encName := "none"
+	shortBy := 0 // > 0: Content-Length announces this many bytes more than are sent, then the sending side is closed
 	switch enc {
 	case 0:
 		switch r.Intn(4) {
@@ -1289,6 +1326,31 @@ func (v *vEnv) rawHTTP(r *vRand, auth, enc int, post bool, ct int, bodyItems int
 	case 3:
 		hdrEnc = []string{"br", "compress", "identity", "GZIP "}[r.Intn(4)]
 		encName = "unsupported"
+	case 4: // the body read ends with io.ErrUnexpectedEOF although every byte that arrived is fine: a compressed stream whose
+		// trailer (checksum / length) is missing or cut, or fewer bytes than Content-Length announced (the sender was cut off).
+		// The received prefix may well decode (always for a missing trailer) - it must be rejected all the same.
+		switch r.Intn(5) {
+		case 0:
+			z := vGzip(body)
+			hdrEnc, body, encName = "gzip", z[:len(z)-8], "gzip-without-trailer"
+		case 1:
+			z := vGzip(body)
+			hdrEnc, body, encName = "gzip", z[:len(z)-1-r.Intn(7)], "gzip-partial-trailer"
+		case 2:
+			z := vZlib(body)
+			hdrEnc, body, encName = []string{"zlib", "deflate"}[r.Intn(2)], z[:len(z)-4], "zlib-without-trailer"
+		default:
+			// a second complete request would follow (protobuf: the concatenation is the merged request; json: padding)
+			encName = "short-of-content-length"
+			if ct == 1 {
+				shortBy = 1 + r.Intn(40)
+			} else {
+				saved := vSkipJSON
+				vSkipJSON = true
+				shortBy = len(vMkPayload(r, signal, 1+r.Intn(4)).pb)
+				vSkipJSON = saved
+			}
+		}
 	}
 	method := "POST"
 	if !post {
@@ -1321,7 +1383,31 @@ func (v *vEnv) rawHTTP(r *vRand, auth, enc int, post bool, ct int, bodyItems int
 			req.Header.Set("Authorization", "bad")
 		}
 	}
-	resp, err := v.hc.Do(req)
+	var resp *http.Response
+	if shortBy > 0 {
+		conn, derr := net.DialTimeout("tcp4", rc.httpAddr, 30*time.Second)
+		if derr != nil {
+			v.t.Fatalf("raw http request: %v", derr)
+		}
+		defer conn.Close()
+		_ = conn.SetDeadline(time.Now().Add(120 * time.Second))
+		var hb bytes.Buffer
+		fmt.Fprintf(&hb, "%s %s HTTP/1.1\r\nHost: %s\r\n", method, vSignalPaths[signal], rc.httpAddr)
+		for k, vs := range req.Header {
+			for _, x := range vs {
+				fmt.Fprintf(&hb, "%s: %s\r\n", k, x)
+			}
+		}
+		fmt.Fprintf(&hb, "Content-Length: %d\r\nConnection: close\r\n\r\n", len(body)+shortBy)
+		hb.Write(body)
+		if _, werr := conn.Write(hb.Bytes()); werr != nil {
+			v.t.Fatalf("raw http request: %v", werr)
+		}
+		_ = conn.(*net.TCPConn).CloseWrite()
+		resp, err = http.ReadResponse(bufio.NewReader(conn), req)
+	} else {
+		resp, err = v.hc.Do(req)
+	}
 	if err != nil {
 		v.t.Fatalf("raw http request failed: %v", err)
 	}
@@ -1385,11 +1471,7 @@ func (v *vEnv) rawHTTP(r *vRand, auth, enc int, post bool, ct int, bodyItems int
 			v.out.Oracle("client-error-reached-consumer", term, desc)
 		}
 		if resp.StatusCode < 400 || resp.StatusCode > 499 {
-			why := "known:client-error-answered-5xx "
-			if !(ct == 2 && (auth == 2 || enc == 1 || enc == 3) && resp.StatusCode == 500) {
-				why = ""
-			}
-			v.out.Oracle("client-error-status", term, why+desc)
+			v.out.Oracle("client-error-status", term, "a refused request must be answered 4xx; "+desc)
 		} else {
 			want := 0
 			switch {
@@ -1565,11 +1647,7 @@ func (v *vEnv) rawGRPC(r *vRand, auth int, bodyItems int, o vOutcome, signal int
 		}
 	case 4:
 		switch {
-		case o.code == 0:
-			if code == 0 {
-				v.out.Oracle("error-becomes-success", term, "custom error type with GRPCStatus().Code()==OK: gRPC OK although the consumer refused; "+desc)
-			}
-		case o.code == -1:
+		case o.code == -1 || o.code == 0:
 			want := int64(codes.Unavailable)
 			if o.wrap == 1 {
 				want = int64(codes.Internal)
@@ -1742,6 +1820,160 @@ func (v *vEnv) shutdownScenario(r *vRand, transport int, o vOutcome, signal int)
 	report(2, items2, p2, err2, rc.sink.got())
 }
 
+
+// ---- a slow consumer and the receiver's HTTP timeouts (kind 11) ---------------------------------------------------
+// A dedicated receiver configured with read_timeout / write_timeout; the next consumer takes holdMs to answer.
+// Within write_timeout the sender must see exactly what a fast consumer would have produced, whatever read_timeout is;
+// beyond write_timeout the response cannot be written (model: connection lost, retryable; no oracle: inherent to the
+// configuration).  The margins are seconds wide (request reading << read_timeout, consumer >> read_timeout resp.
+// write_timeout); nothing is measured.  Reports failures of the scenario itself through the oracle channel (it runs
+// in its own goroutine beside the rest of the harness).
+func (v *vEnv) slowConsumerScenario(salt uint64, transport, readMs, writeMs, holdMs int, o vOutcome, signal int) {
+	r := vNewRand(salt)
+	fail := func(msg string) {
+		v.out.Oracle("scenario-error", vZ(int64(salt)), "slow-consumer scenario: "+msg)
+	}
+	rc, err := vStartReceiver(false, v.host, func(cfg *otlpreceiver.Config) {
+		cfg.HTTP.ServerConfig.ReadTimeout = time.Duration(readMs) * time.Millisecond
+		cfg.HTTP.ServerConfig.WriteTimeout = time.Duration(writeMs) * time.Millisecond
+	})
+	if err != nil {
+		fail(fmt.Sprintf("cannot start a receiver: %v", err))
+		return
+	}
+	defer rc.stop()
+	rc.sink.set(o.err())
+	rc.sink.mu.Lock()
+	rc.sink.hold = time.Duration(holdMs) * time.Millisecond
+	rc.sink.mu.Unlock()
+	comp, _ := v.comp(r, transport)
+	e, err := vNewExporter(transport, comp, 0, signal, rc, v.host)
+	if err != nil {
+		fail(fmt.Sprintf("cannot create an exporter: %v", err))
+		return
+	}
+	defer func() { _ = e.comp.Shutdown(context.Background()) }()
+	items := 1 + r.Intn(6)
+	p := vMkPayload(r, signal, items)
+	sendErr := p.send(e)
+	// the consumer call has been entered by now or never will be; wait for it to finish before looking at the sink
+	for dl := time.Now().Add(time.Duration(holdMs)*time.Millisecond + 30*time.Second); len(rc.sink.got()) == 0 && time.Now().Before(dl); {
+		time.Sleep(5 * time.Millisecond)
+	}
+	got := rc.sink.got()
+	verdict, delay := vClassify(sendErr)
+	code := vErrCode(sendErr)
+	called := len(got) > 0
+	sinkEq := int64(1)
+	for _, g := range got {
+		if !bytes.Equal(g, p.canon) {
+			sinkEq = 0
+		}
+	}
+	b2z := func(b bool) int64 {
+		if b {
+			return 1
+		}
+		return 0
+	}
+	in := append([]string{vZ(int64(transport)), vZ(int64(readMs)), vZ(int64(writeMs)), vZ(int64(holdMs)), vZ(int64(items))}, o.terms()...)
+	in = append(in, vZ(int64(signal)))
+	obs := []string{vZ(b2z(called)), vZ(int64(verdict)), vZ(delay), vZ(code), vZ(int64(len(got))), vZ(sinkEq)}
+	term := vPair("11", vPair(vList(in), vList(obs)))
+	v.out.Case(true, term)
+	v.out.Stat(fmt.Sprintf("slow_consumer_transport_%d_verdict_%d", transport, verdict), 1)
+	desc := fmt.Sprintf("transport=%d read_timeout=%dms write_timeout=%dms consumer=%dms items=%d signal=%d comp=%s outcome=%+v: called=%v verdict=%d delay=%d code=%d err=%v",
+		transport, readMs, writeMs, holdMs, items, signal, comp, o, called, verdict, delay, code, sendErr)
+	if !called || len(got) != 1 {
+		v.out.Oracle("payload-not-delivered", term, desc)
+	} else if sinkEq != 1 {
+		v.out.Oracle("sink-payload-differs", term, desc)
+	}
+	if writeMs != 0 && holdMs >= writeMs {
+		return // the response cannot be written by configuration: compared with the model only
+	}
+	want := o.expectedClass(transport)
+	cls := verdict
+	if cls == 3 {
+		cls = 2
+	}
+	if want != 3 && want != cls {
+		if (want == 0) != (cls == 0) {
+			v.out.Oracle("success-iff-accepted", term, "the consumer answered within write_timeout; "+desc)
+		} else {
+			v.out.Oracle("failure-meaning-changed", term, fmt.Sprintf("want class %d; the consumer answered within write_timeout; %s", want, desc))
+		}
+	}
+}
+
+
+// ---- a history of sends against one receiver (kind 12) ---------------------------------------------------------------
+func (v *vEnv) history(r *vRand, k int) {
+	type sent struct {
+		canon []byte
+		used  bool
+	}
+	auth := r.Pick(3, 2) // one receiver per history: without / with an authenticator (then credentials vary per send)
+	rc := v.recv(auth)
+	rc.sink.set(nil)
+	var in, verdicts []string
+	var sents []sent
+	var descs []string
+	for i := 0; i < k; i++ {
+		transport, signal := r.Intn(3), r.Intn(4)
+		a := auth
+		if auth != 0 {
+			a = 1 + r.Pick(3, 1)
+		}
+		items := r.Pick(1, 5) * (1 + r.Intn(5))
+		o := vRandOutcome(r)
+		comp, _ := v.comp(r, transport)
+		p := vMkPayload(r, signal, items)
+		rc.sink.setErr(o.err())
+		err := p.send(v.exporter(transport, comp, a, signal))
+		verdict, delay := vClassify(err)
+		in = append(in, vZ(int64(transport)), vZ(int64(a)), vZ(int64(items)))
+		in = append(in, o.terms()...)
+		verdicts = append(verdicts, vZ(int64(verdict)), vZ(delay))
+		sents = append(sents, sent{canon: p.canon})
+		descs = append(descs, fmt.Sprintf("#%d t=%d a=%d items=%d signal=%d %+v -> verdict %d", i, transport, a, items, signal, o, verdict))
+		want := o.expectedClass(transport)
+		cls := verdict
+		if cls == 3 {
+			cls = 2
+		}
+		if a != 2 && items > 0 && (want == 0) != (cls == 0) {
+			v.out.Oracle("success-iff-accepted", vZ(int64(i)), "in a history of sends: "+strings.Join(descs, "; "))
+		}
+	}
+	var idx []string
+	ok := true
+	for _, g := range rc.sink.got() {
+		found := -1
+		for i := range sents {
+			if !sents[i].used && bytes.Equal(sents[i].canon, g) {
+				found = i
+				break
+			}
+		}
+		if found < 0 {
+			ok = false
+			idx = append(idx, vZ(-1))
+			continue
+		}
+		sents[found].used = true
+		idx = append(idx, vZ(int64(found)))
+	}
+	obs := append(append(verdicts, vZ(-7)), idx...)
+	term := vPair("12", vPair(vList(in), vList(obs)))
+	v.out.Case(true, term)
+	v.out.Stat("history_sends", k)
+	v.out.Stat(fmt.Sprintf("history_auth_%d", auth), 1)
+	if !ok {
+		v.out.Oracle("sink-payload-differs", term, "the sink of a history holds a payload that was never sent: "+strings.Join(descs, "; "))
+	}
+}
+
 // ---- generators ---------------------------------------------------------------------------------------------------
 var vDelays = []time.Duration{0, 1, 999999999, time.Second, 1500 * time.Millisecond, 7 * time.Second, -1, -1500 * time.Millisecond, 3600 * time.Second, 2 * time.Second}
 
@@ -1765,9 +1997,6 @@ func vRandOutcome(r *vRand) vOutcome {
 		if o.code >= 0 && r.Bool() {
 			o.riKind = 1
 			o.d = vDelays[r.Intn(len(vDelays))]
-		}
-		if o.code == 0 && r.Intn(4) != 0 { // keep the known-finding region small
-			o.code = 14
 		}
 		return o
 	}
@@ -1834,6 +2063,24 @@ func TestVerifC15Hop(t *testing.T) {
 
 	t0 := time.Now()
 	lap := func(name string) { t.Logf("phase %s done at %v", name, time.Since(t0)) }
+	// (0) slow consumers against the receiver's HTTP timeouts: they take seconds of waiting, so they run beside the rest
+	var slow sync.WaitGroup
+	for i, sc := range []struct {
+		transport, readMs, writeMs, holdMs int
+		o                                 vOutcome
+	}{
+		{1, 2500, 60000, 3800, vOutcome{}},                                            // slower than read_timeout, accepted
+		{2, 2500, 60000, 3800, vOutcome{okind: 3, code: 8, riKind: 1, d: 2 * time.Second}}, // ... refused with a throttling status
+		{1, 0, 0, 1500, vOutcome{okind: 2}},                                           // no timeouts at all
+		{2, 0, 1200, 2600, vOutcome{}},                                                // slower than write_timeout: the response is lost
+	} {
+		slow.Add(1)
+		go func() {
+			defer slow.Done()
+			v.slowConsumerScenario(uint64(1100+i), sc.transport, sc.readMs, sc.writeMs, sc.holdMs, sc.o, i%4)
+		}()
+	}
+	defer slow.Wait()
 	// (1) every outcome class x every transport, no authenticator, >= 1 item
 	for _, o := range vSystematicOutcomes(r) {
 		for transport := 0; transport < 3; transport++ {
@@ -1905,6 +2152,68 @@ func TestVerifC15Hop(t *testing.T) {
 		v.hop(r, transport, 0, 1+r.Intn(40), vRandOutcome(r), r.Intn(4), fmt.Sprintf("%s:%d", name, lv), ci)
 	}
 	lap("2c")
+	// (2d) rare but valid configurations: a receiver with custom URL paths, exporters with a base endpoint that ends in
+	// "/", with per-signal endpoint overrides, gRPC endpoints written with a scheme; every signal on each
+	{
+		custom, cerr := vStartReceiver(false, host, func(cfg *otlpreceiver.Config) {
+			cfg.HTTP.TracesURLPath = "/custom/t"
+			cfg.HTTP.MetricsURLPath = "/m/x/y"
+			cfg.HTTP.LogsURLPath = "/custom/logs"
+		})
+		if cerr != nil {
+			t.Fatalf("cannot start the receiver with custom paths: %v", cerr)
+		}
+		type cfgCase struct {
+			name      string
+			recv      *vRecv
+			transport int
+			hook      func(g *otlpexporter.Config, h *otlphttpexporter.Config)
+			signals   []int
+		}
+		var cases []cfgCase
+		for _, tr := range []int{1, 2} {
+			cases = append(cases,
+				cfgCase{"base-endpoint-with-trailing-slash", plain, tr, func(_ *otlpexporter.Config, h *otlphttpexporter.Config) {
+					h.ClientConfig.Endpoint = "http://" + plain.httpAddr + "/"
+				}, []int{0, 1, 2, 3}},
+				cfgCase{"per-signal-endpoints-to-custom-paths", custom, tr, func(_ *otlpexporter.Config, h *otlphttpexporter.Config) {
+					h.ClientConfig.Endpoint = "http://127.0.0.1:1" // must not be used for the overridden signals
+					h.TracesEndpoint = "http://" + custom.httpAddr + "/custom/t"
+					h.MetricsEndpoint = "http://" + custom.httpAddr + "/m/x/y"
+					h.LogsEndpoint = "http://" + custom.httpAddr + "/custom/logs"
+				}, []int{0, 1, 2}},
+				cfgCase{"base-endpoint-to-default-profiles-path-of-custom-receiver", custom, tr, func(_ *otlpexporter.Config, h *otlphttpexporter.Config) {
+					h.ClientConfig.Endpoint = "http://" + custom.httpAddr
+				}, []int{3}})
+		}
+		cases = append(cases,
+			cfgCase{"grpc-endpoint-with-http-scheme", plain, 0, func(g *otlpexporter.Config, _ *otlphttpexporter.Config) {
+				g.ClientConfig.Endpoint = "http://" + plain.grpcAddr
+			}, []int{0, 1, 2, 3}},
+			cfgCase{"grpc-endpoint-with-dns-scheme", custom, 0, func(g *otlpexporter.Config, _ *otlphttpexporter.Config) {
+				g.ClientConfig.Endpoint = "dns:///" + custom.grpcAddr
+			}, []int{0, 1, 2, 3}})
+		for _, c := range cases {
+			for _, signal := range c.signals {
+				vExpCfgHook = c.hook
+				e, eerr := vNewExporter(c.transport, "gzip", 0, signal, c.recv, host)
+				vExpCfgHook = nil
+				if eerr != nil {
+					out.Oracle("scenario-error", vStr(c.name), fmt.Sprintf("valid configuration %s rejected: %v", c.name, eerr))
+					continue
+				}
+				v.ovRecv, v.ovExp = c.recv, e
+				for _, o := range []vOutcome{{}, vRandOutcome(r)} {
+					v.hop(r, c.transport, 0, 1+r.Intn(5), o, signal, "gzip", 1)
+				}
+				v.ovRecv, v.ovExp = nil, nil
+				out.Stat("config_"+c.name, 1)
+				_ = e.comp.Shutdown(context.Background())
+			}
+		}
+		custom.stop()
+	}
+	lap("2d")
 	// (3) no items: acknowledged without the consumer; authenticator accepts / refuses
 	for transport := 0; transport < 3; transport++ {
 		for signal := 0; signal < 4; signal++ {
@@ -1926,7 +2235,7 @@ func TestVerifC15Hop(t *testing.T) {
 	lap("4")
 	// (5) raw HTTP requests: every (auth, enc, method, content type, body) class, then random
 	for auth := 0; auth < 3; auth++ {
-		for enc := 0; enc < 4; enc++ {
+		for enc := 0; enc < 5; enc++ {
 			for _, post := range []bool{true, false} {
 				for ct := 0; ct < 3; ct++ {
 					for _, body := range []int{-1, 0, 2} {
@@ -1934,6 +2243,13 @@ func TestVerifC15Hop(t *testing.T) {
 					}
 				}
 			}
+		}
+	}
+	// bodies that end early although the received prefix decodes: every signal x encoding, twice (random flavour)
+	for signal := 0; signal < 4; signal++ {
+		for ct := 0; ct < 2; ct++ {
+			v.rawHTTP(r, 0, 4, true, ct, 1+r.Intn(4), vOutcome{}, signal)
+			v.rawHTTP(r, r.Intn(2), 4, true, ct, 1+r.Intn(4), vRandOutcome(r), signal)
 		}
 	}
 	// malformed bodies: every signal x encoding x {fails at once, valid prefix + corrupted tail} x consumer {accepts, refuses}
@@ -1951,7 +2267,7 @@ func TestVerifC15Hop(t *testing.T) {
 		v.rawHTTP(r, 0, 0, true, r.Intn(2), 1+r.Intn(4), o, r.Intn(4))
 	}
 	for i, n := 0, vBudget(220, 10); i < n; i++ {
-		v.rawHTTP(r, r.Pick(3, 1, 1), r.Pick(5, 1, 1, 1), r.Intn(8) != 0, r.Pick(3, 3, 1), r.Pick(1, 1, 4)-1+r.Intn(2), vRandOutcome(r), r.Intn(4))
+		v.rawHTTP(r, r.Pick(3, 1, 1), r.Pick(5, 1, 1, 1, 2), r.Intn(8) != 0, r.Pick(3, 3, 1), r.Pick(1, 1, 4)-1+r.Intn(2), vRandOutcome(r), r.Intn(4))
 	}
 	lap("5")
 	// (6) raw gRPC frames
@@ -1976,6 +2292,10 @@ func TestVerifC15Hop(t *testing.T) {
 		v.rawGRPC(r, r.Pick(3, 1, 1), r.Pick(1, 1, 5)-1+r.Intn(2), vRandOutcome(r), r.Intn(4))
 	}
 	lap("6")
+	// (6b) histories: 3..8 sends in a row against one receiver, sink not reset
+	for i, n := 0, vBudget(12, 10); i < n; i++ {
+		v.history(r, 3+r.Intn(6))
+	}
 	// (7) exports that overlap the receiver's Shutdown: every transport x {accepted, refused as permanent, refused as
 	// transient, explicit status with a throttling delay}, then random outcomes
 	for transport := 0; transport < 3; transport++ {
